@@ -286,7 +286,11 @@ func (c *Ctx) RealRun(node string, cfgID string, files map[string][]byte, argv [
 	for f, b := range files {
 		p := filepath.Join(dir, f)
 		os.MkdirAll(filepath.Dir(p), 0755)
-		os.WriteFile(p, b, 0644)
+		mode := os.FileMode(0644)
+		if strings.HasPrefix(f, "bin/") {
+			mode = 0755
+		}
+		os.WriteFile(p, b, mode)
 	}
 	cmd := exec.Command(c.RealBins[node], argv...)
 	cmd.Dir = dir
